@@ -31,7 +31,15 @@ out += ["", f"{c} of {n} seeded changes are caught by the quick tier.", "",
         "violating the property on the real local store once fix #11 made its writes atomic (presence then implies completeness); it is",
         "caught again through the non-atomic store variant that C18 also runs. **C04-3**, **C05-3**, **C10-3**, **C13-3** break a clause",
         "that another property's check owns (point containment: C12; leaf geometry under a filtered planetary pyramid: C03; the tilers'",
-        "lock-file clean-up: C03/C09 on Engine A with critical-section yields; parallel seeding: C01) and are caught there.", ""]
+        "lock-file clean-up: C03/C09 on Engine A with critical-section yields; parallel seeding: C01) and are caught there.",
+        "Likewise **C04-4**, **C04-5**, **C05-5**, **C05-6** (round 2) change only the point / pixel *look-up*: the tile that is",
+        "returned is the wrong one for the point, but its corners are still the right ones for the position it reports and every",
+        "grid is unchanged, so C04 and C05 hold and C12 (the look-up returns the tile / pixel containing the point) is what breaks;",
+        "**C03-4** breaks failure reporting (C19) and **C09-6** the recorded data range (C14).",
+        "Round 2 also led to new generators in the owning checks: level-0 grid (C05-4), collections of FITS images against the",
+        "unfiltered pipeline (C07-4), poles anywhere inside an edge pixel probed 16384x deeper than the image scale (C07-5),",
+        "whole-tile holes over a re-tiled directory, tiles holding only +-inf, a tiling nested inside another one's write (C08-4..6),",
+        "histories of pyramids in one process (C13-5), transient faults (C18-4..6), deep look-ups to level 26 (C12).", ""]
 p = os.path.join(HERE, "DESIGN.md")
 s = open(p).read()
 i = s.index("## 7. Which checks catch which seeded changes")
